@@ -1,4 +1,148 @@
 package engine
 
-// formatOracle (C09) is implemented in refcheck.go once refformat exists.
-func (ex *Exec) formatOracle(where string) {}
+import (
+	"bytes"
+	"fmt"
+
+	wal "github.com/hashicorp/raft-wal"
+	"github.com/hashicorp/raft-wal/segment"
+	"verif/sim/refformat"
+)
+
+// formatOracle (C09): at quiescent points every segment named by the committed
+// metadata must be reproduced byte-for-byte, up to its last commit, by the
+// README-only encoder, agree with file name and metadata, carry the model's
+// entries, and (sealed) an index frame addressed by IndexStart.
+func (ex *Exec) formatOracle(where string) {
+	if !ex.on("format") {
+		return
+	}
+	st, ok := ex.persistedState()
+	if !ok {
+		return
+	}
+	cur := ex.or.Definite()
+	found := 0
+	for _, si := range st.Segments {
+		name := refformat.FileName(si.BaseIndex, si.ID)
+		if name != segment.FileName(si) {
+			ex.violate("format", "file-name", "%s: file name %q, README says %q", where, segment.FileName(si), name)
+			return
+		}
+		sealed := !si.SealTime.IsZero()
+		ino := ex.disk.Lookup(name)
+		if ino == nil {
+			if sealed {
+				ex.violate("format", "sealed-file-missing", "%s: sealed segment %s has no file", where, name)
+				return
+			}
+			continue
+		}
+		seg := refformat.Decode(ino.Vol)
+		ex.probes.Add("format_segments_checked", 1)
+		if seg.CommittedLen == 0 {
+			if sealed {
+				ex.violate("format", "sealed-without-commit", "%s: sealed segment %s has no valid commit (%s)", where, name, seg.StopReason)
+				return
+			}
+			continue
+		}
+		h := seg.Header
+		if h.Magic != refformat.Magic || h.Vsn != 0 || h.Reserved != [3]byte{} || h.BaseIndex != si.BaseIndex || h.SegmentID != si.ID || h.Codec != si.Codec {
+			ex.violate("format", "header-mismatch", "%s: %s header %+v does not agree with README/name/metadata (base %d id %d codec %d)", where, name, h, si.BaseIndex, si.ID, si.Codec)
+			return
+		}
+		img := refformat.Encode(seg)
+		if !bytes.Equal(img, ino.Vol[:seg.CommittedLen]) {
+			d := 0
+			for d < len(img) && d < int(seg.CommittedLen) && img[d] == ino.Vol[d] {
+				d++
+			}
+			ex.violate("format", "bytes-differ", "%s: %s differs from the reference encoding at offset %d (committed length %d)", where, name, d, seg.CommittedLen)
+			return
+		}
+		offs := seg.EntryOffsets()
+		for _, o := range offs {
+			if o%8 != 0 {
+				ex.violate("format", "misaligned-frame", "%s: %s entry frame at offset %d is not 8-byte aligned", where, name, o)
+				return
+			}
+		}
+		if sealed {
+			ex.probes.Add("format_sealed_checked", 1)
+			isSealed, b := seg.Sealed()
+			if !isSealed {
+				ex.violate("format", "sealed-without-index", "%s: metadata says %s is sealed but its last committed batch has no index frame", where, name)
+				return
+			}
+			if si.IndexStart != uint64(b.IndexPayloadOffset) {
+				ex.violate("format", "index-start", "%s: %s IndexStart in metadata %d, index payload is at %d", where, name, si.IndexStart, b.IndexPayloadOffset)
+				return
+			}
+			if len(b.Index) != len(offs) {
+				ex.violate("format", "index-count", "%s: %s index has %d offsets for %d entry frames", where, name, len(b.Index), len(offs))
+				return
+			}
+			for i := range offs {
+				if b.Index[i] != offs[i] {
+					ex.violate("format", "index-offset", "%s: %s index[%d]=%d but entry frame %d is at %d", where, name, i, b.Index[i], i, offs[i])
+					return
+				}
+			}
+		} else if yes, _ := seg.Sealed(); yes {
+			// a tail whose file is sealed while metadata says unsealed is the
+			// legal window between the sealing append and the rotation commit
+			ex.probes.Add("format_tail_sealed_pending", 1)
+		}
+		// live entries equal the model
+		if cur == nil {
+			continue
+		}
+		ents := seg.AllEntries()
+		for j, payload := range ents {
+			idx := si.BaseIndex + uint64(j)
+			if idx < si.MinIndex || (sealed && idx > si.MaxIndex) {
+				continue
+			}
+			if cur.Empty() || idx < cur.First || idx > cur.Last {
+				if !sealed && ex.gen == 0 && !ex.faultedEver {
+					// committed entry in the tail beyond the model's last index
+					ex.violate("format", "tail-has-extra-committed", "%s: %s holds a committed entry for index %d, log is [%d,%d]", where, name, idx, cur.First, cur.Last)
+					return
+				}
+				continue
+			}
+			var buf bytes.Buffer
+			(&wal.BinaryCodec{}).Encode(cur.Ent[idx].Log(), &buf)
+			if !bytes.Equal(buf.Bytes(), payload) {
+				ex.violate("format", "entry-payload", "%s: %s entry frame for index %d does not hold the encoding of the model's entry (id %x)", where, name, idx, cur.Ent[idx].ID)
+				return
+			}
+			found++
+		}
+		// one commit frame per acknowledged batch (crash- and fault-free histories)
+		if ex.gen == 0 && !ex.faultedEver {
+			pos := si.BaseIndex
+			for _, b := range seg.Batches {
+				if len(b.Entries) == 0 {
+					continue
+				}
+				first, last := pos, pos+uint64(len(b.Entries))-1
+				pos = last + 1
+				if last < si.MinIndex || (sealed && last > si.MaxIndex) || cur.Empty() || last > cur.Last || first < cur.First {
+					continue
+				}
+				ex.probes.Add("format_batches_checked", 1)
+				if f, ok := ex.batches[last]; !ok || f != first {
+					ex.violate("format", "commit-boundaries", "%s: %s has a commit frame closing entries [%d,%d], which is not an acknowledged batch", where, name, first, last)
+					return
+				}
+			}
+		}
+	}
+	if cur != nil && found != cur.Len() {
+		ex.violate("format", "entries-missing-from-files", "%s: the segment files hold %d of the model's %d live entries", where, found, cur.Len())
+		return
+	}
+	_ = fmt.Sprint
+}
